@@ -4,7 +4,8 @@ C12 — Well-typed tree: declared shape/dtype match loaded data, no opaque objec
 * `documented_trees_well_typed` — in the documented trees (which the real outputs are instances of, for every file content:
   C03 / C04 / C16 provenance theorems) every variable holds a leaf or a (nested) list of leaves — never a dict, never an
   internal `(value, attrs)` pair — and every attribute is a scalar / string / nested list or tuple of those;
-  `image_group_well_typed` — the same for the image group with ANY number of lines; `typing_is_shape_only` — the predicate
+  `image_group_well_typed` — the same for the image group with ANY number of lines; `metadata_well_typed` /
+  `leader_trees_well_typed` — the same for the whole `/metadata` tree (any counts, any designator class); `typing_is_shape_only` — the predicate
   depends only on the shape, so it transfers from the symbolic tree to every concrete output.
 * `declared_shape` — the lazily wrapped image advertises `(n, m)`: loading everything returns exactly `n` rows of `m` samples
   (C01 `pixel_fidelity`), and every basic selection has NumPy's shape (C02).
@@ -12,6 +13,7 @@ C12 — Well-typed tree: declared shape/dtype match loaded data, no opaque objec
   whatever the array carries with `np.dtype(...)` (re-read from the source: the pinned tree advertised a `str`).
 -/
 import Alos2.Proofs.Typing
+import Alos2.Proofs.Typing2
 import Alos2.Proofs.Geometry
 import Alos2.Gen.Consts
 
@@ -21,6 +23,18 @@ theorem documented_trees_well_typed :
     Spec.datasetSummary.wellTyped = true ∧ Spec.radiometricData.wellTyped = true ∧ Spec.transformations.wellTyped = true ∧
     Spec.rootAttrs.all (fun kv => kv.2.plainAttr) = true ∧ Spec.headerAttrs.all (fun kv => kv.2.plainAttr) = true :=
   spec_trees_wellTyped
+
+/-- the whole documented `/metadata` tree (which the real `/metadata` is an instance of for every leader file: C04 `metadata`)
+    is well typed — for every number of attitude points and channels, every designator class, map projection present or not -/
+theorem metadata_well_typed (hasMap : Bool) (d : Desig) (na nc : Nat) (G : Grp Sym)
+    (h : Spec.metadata hasMap d na nc = some G) : G.wellTyped = true := metadata_wellTyped hasMap d na nc G h
+
+theorem leader_trees_well_typed (n : Nat) :
+    Spec.platformPosition.wellTyped = true ∧ Spec.mapProjectionUTM.wellTyped = true ∧ Spec.mapProjectionUPS.wellTyped = true ∧
+    Spec.mapProjectionNAT.wellTyped = true ∧ Spec.mapProjectionOther.wellTyped = true ∧
+    (Spec.attitude n).wellTyped = true ∧ (Spec.dataQualitySummary n).wellTyped = true :=
+  ⟨spec_trees_wellTyped2.1, spec_trees_wellTyped2.2.1, spec_trees_wellTyped2.2.2.1, spec_trees_wellTyped2.2.2.2.1,
+   spec_trees_wellTyped2.2.2.2.2, attitude_wellTyped n, dataQualitySummary_wellTyped n⟩
 
 theorem image_group_well_typed (n : Nat) :
     (Spec.lineTree Spec.lineVars15 Spec.lineAttrs15 n).wellTyped = true ∧
